@@ -50,6 +50,11 @@ def long_family(rng, length=None):
 # if the proposed lines were already listed.
 PROPOSED_KNOWN = {
     "F13": "pkg/query/aggregation/function.go meanFunc.Val / meanReduceFunc.Val: MEAN and documented quotient sum/count < 1 => 1 is returned",
+    "F42": "banyand/measure/topn_post_processor.go topNPostProcessor.Put: per-timestamp queue full and (a newer version makes a kept "
+           "entity worse, or an older version of an entity arrives with a better value than its latest) => an evicted/rejected entity "
+           "cannot come back or re-enters with a stale value; result depends on arrival order",
+    "F43": "banyand/measure/topn_post_processor.go topNPostProcessor.Flush with an aggregation function: more distinct entities across the "
+           "timestamps than topN => partial aggregates of evicted entities are lost; result depends on Go map iteration order",
     "F40": "distributed aggregation push-down (measure_plan_aggregation.go aggAllIterator/aggGroupIterator shard id, "
            "vectorized/measure/aggregation.go newGroup; liaison de-dup by (shard, group)): a node's partial row covers rows of "
            "several shards, or a no-group-by aggregate is answered by nodes holding different data => partials dropped or double counted",
@@ -155,6 +160,14 @@ class Sc:
         f = line.split()
         self.path, self.fn, self.mask = f[0], f[1], f[2]
         self.top = None
+        self.limit = None
+        if "@" in f[3]:
+            f[3], lim = f[3].split("@")
+            if self.path == "row":          # the vectorized operators driven here have no limit stage
+                self.limit = int(lim)
+            self.limit_s = "@" + lim
+        else:
+            self.limit_s = ""
         if f[3] != "0":
             n, d = f[3].split(":")
             self.top = (int(n), d == "a")
@@ -179,7 +192,7 @@ class Sc:
         return [(j, r) for j, r in enumerate(self.rows) if r[0] in self.nodes[i]]
 
     def render(self):
-        top = "0" if self.top is None else "%d:%s" % (self.top[0], "a" if self.top[1] else "d")
+        top = ("0" if self.top is None else "%d:%s" % (self.top[0], "a" if self.top[1] else "d")) + self.limit_s
         nodes = "/".join("+".join(map(str, n)) if n else "-" for n in self.nodes)
         rows = ",".join("%d.%s.%s.%s.%d" % (s, t[0], t[1], t[2], v) for (s, t, v) in self.rows) or "-"
         return "%s %s %s %s %s %s" % (self.path, self.fn, self.mask, top, nodes, rows)
@@ -221,17 +234,23 @@ def check_result(sc, what, out, groups):
         if v is None:
             return ("violation", "%s: group %s has no single int field" % (what, k))
         res.append(classify(sc.fn, groups[k], v, "%s group %s" % (what, k)))
+    lim = sc.limit if sc.limit is not None else 1 << 40
     if sc.top is None:
+        if sc.limit is not None:
+            # any `limit` of the groups, each with its complete value
+            if len(keys) != min(lim, len(groups)):
+                return ("violation", "%s: %d groups returned for limit %d over %d groups" % (what, len(keys), lim, len(groups)))
+            return worst(*res)
         missing = set(groups) - set(keys)
         if missing:
             return ("violation", "%s: groups %s are missing" % (what, sorted(missing)))
         return worst(*res)
     n, asc = sc.top
     vals = [v for _, v in out]
-    doc = sorted((ref_doc(sc.fn, g) for g in groups.values()), reverse=not asc)[:n]
+    doc = sorted((ref_doc(sc.fn, g) for g in groups.values()), reverse=not asc)[:n][:lim]
     if vals == doc:
         return worst(*res)
-    cl = sorted((clamped(sc.fn, g) for g in groups.values()), reverse=not asc)[:n]
+    cl = sorted((clamped(sc.fn, g) for g in groups.values()), reverse=not asc)[:n][:lim]
     if vals == cl and any(clamped(sc.fn, g) != ref_doc(sc.fn, g) for g in groups.values()):
         return worst(("known", "F13", "%s: top-%d ranks groups by the clamped MEAN" % (what, n)), *res)
     return worst(("violation", "%s: top %d %s of the group values is %s, implementation says %s" %
@@ -308,6 +327,150 @@ def scenario_oracle(line, g):
             r_dist = ("known", "F40", "partials labelled %s do not stand for disjoint row sets covering the data; %s" %
                       (parts["R"][:120], r_dist[1]))
     return worst(r_local, r_nodes, r_dist)
+
+
+# ----------------------------------------------------------------------------------------------------------
+# TopN post-processor (tnp lines)
+
+def tnp_reference(line):
+    """per timestamp: latest-version value per entity (ties: last arrival), whether the arrivals are `monotone`
+    (a not-older version never makes an entity worse, an older version is never better than the latest), the n best."""
+    f = line.split()
+    n, asc, agg = int(f[1]), f[2] == "a", f[3]
+    items = []
+    for r in f[5].split("/"):
+        if r != "-":
+            for it in r.split(","):
+                t, k, v, ver = it.split(".")
+                items.append((int(t), k, int(v), int(ver)))
+    better = (lambda a, b: a < b) if asc else (lambda a, b: a > b)
+    per_ts = {}
+    for (t, k, v, ver) in items:
+        st = per_ts.setdefault(t, {"truth": {}, "monotone": True})
+        cur = st["truth"].get(k)
+        if cur is None:
+            st["truth"][k] = (v, ver)
+        elif ver >= cur[1]:
+            if better(cur[0], v):
+                st["monotone"] = False
+            st["truth"][k] = (v, ver)
+        elif better(v, cur[0]):
+            st["monotone"] = False
+    for t, st in per_ts.items():
+        ranked = sorted(st["truth"].items(), key=lambda kv: kv[1][0], reverse=not asc)
+        st["kept"] = ranked[:n]
+        st["full"] = len(ranked) > n
+        st["boundary_tie"] = len(ranked) > n and ranked[n - 1][1][0] == ranked[n][1][0]
+        st["exact"] = st["monotone"] or not st["full"]
+    return n, asc, agg, items, per_ts
+
+
+def tnp_oracle(line, g):
+    n, asc, agg, items, per_ts = tnp_reference(line)
+    if g.startswith("ERR"):
+        return ("violation", "TopN post-processor returned an error: " + g[:120])
+    if not items:
+        return None if g == "E" else ("violation", "no input but output " + g[:80])
+    stat("tnp:" + ("agg" if agg != "none" else "per-timestamp"))
+    if agg == "none":
+        if not g.startswith("T="):
+            return ("violation", "unexpected output " + g[:80])
+        got = {}
+        for part in g[2:].split(";"):
+            t, rest = part.split(":", 1)
+            got[int(t)] = [(kv.rsplit("=", 1)[0], int(kv.rsplit("=", 1)[1])) for kv in rest.split(",")] if rest else []
+        if sorted(got) != sorted(per_ts):
+            return ("violation", "timestamps %s returned for %s" % (sorted(got), sorted(per_ts)))
+        res = []
+        for t, st in sorted(per_ts.items()):
+            stat("tnp:timeline:%s:%s" % ("full" if st["full"] else "short", "monotone" if st["monotone"] else "non-monotone"))
+            want = [v for _, (v, _) in st["kept"]]
+            vals = [v for _, v in got[t]]
+            ok = vals == want and all(k in st["truth"] and st["truth"][k][0] == v for k, v in got[t]) and \
+                len(set(k for k, _ in got[t])) == len(got[t])
+            if ok:
+                continue
+            if st["exact"]:
+                res.append(("violation", "timestamp %d: the %d best latest-version values are %s, implementation says %s" % (t, n, want, got[t])))
+            else:
+                res.append(("known", "F42", "timestamp %d: the %d best latest-version values are %s, implementation says %s" % (t, n, want, got[t])))
+        return worst(*res)
+    if not g.startswith("A="):
+        return ("violation", "unexpected output " + g[:80])
+    got = [] if g[2:] == "-" else [(kv.rsplit("=", 1)[0], int(kv.rsplit("=", 1)[1])) for kv in g[2:].split(",")]
+    if any(st["boundary_tie"] for st in per_ts.values()):
+        stat("tnp:agg:boundary-tie-abstain")
+        return None      # which of two equal entities a timeline keeps is unspecified; their aggregates differ
+    series = {}
+    for t, st in sorted(per_ts.items()):
+        for k, (v, _) in st["kept"]:
+            series.setdefault(k, []).append(v)
+    exact_stage1 = all(st["exact"] for st in per_ts.values())
+    stat("tnp:agg:%s" % ("entities<=n" if len(series) <= n else "entities>n"))
+    doc = {k: ref_doc(agg, vs) for k, vs in series.items()}
+    cl = {k: clamped(agg, vs) for k, vs in series.items()}
+
+    def matches(ref):
+        want = sorted(ref.values(), reverse=not asc)[:n]
+        return [v for _, v in got] == want and all(k in ref and ref[k] == v for k, v in got) and len(set(k for k, _ in got)) == len(got)
+    if matches(doc):
+        return None
+    if not exact_stage1:
+        return ("known", "F42", "aggregated TopN over timelines with non-monotone replicas: %s" % got)
+    if len(series) > n and not matches(doc):
+        if matches(cl):
+            return ("known", "F13", "aggregated TopN ranks by the clamped MEAN")
+        return ("known", "F43", "%d entities compete for %d places: %s over the kept values is %s, implementation says %s" %
+                (len(series), n, agg, sorted(doc.items()), got))
+    if agg == "mean" and matches(cl) and cl != doc:
+        return ("known", "F13", "aggregated TopN: MEAN below 1 reported as 1")
+    return ("violation", "aggregated TopN: %s over the kept values is %s (best %d), implementation says %s" % (agg, sorted(doc.items()), n, got))
+
+
+def rand_tnp(rng):
+    n = rng.choice([1, 2, 2, 3, 5])
+    d = rng.choice("ad")
+    agg = rng.choice(["none", "none", "none"] + FNS)
+    ents = ["A", "B", "C", "D", "E", "F", "svc-long-name-0001", "svc-long-name-0002"][:rng.choice([2, 3, 4, 4, 6, 8])]
+    tss = [1000, 2000, 3000][:rng.choice([1, 1, 2, 3])]
+    style = rng.random()
+    used = set()
+
+    def val():
+        if rng.random() < 0.1:
+            return rng.choice([0, 1, -1, MAXI, MINI, 5, 5])
+        while True:
+            v = rng.randint(-50, 200)
+            if v not in used or rng.random() < 0.05:
+                used.add(v)
+                return v
+    better = (lambda a, b: a < b) if d == "a" else (lambda a, b: a > b)
+    resps, truth = [], {}
+    for _ in range(rng.choice([1, 2, 3, 3, 4, 5])):
+        if resps and rng.random() < 0.25:
+            resps.append(list(rng.choice(resps)))          # an identical replica answer
+            continue
+        items = []
+        for t in tss:
+            for k in rng.sample(ents, rng.randint(0, min(len(ents), n + 1))):
+                cur = truth.get((t, k))
+                if cur is None or style > 0.7:
+                    v, ver = val(), rng.randint(1, 3)           # style > 0.7: anything goes (F42 territory)
+                elif rng.random() < 0.5:
+                    v, ver = cur                                 # the same write seen by another replica
+                elif rng.random() < 0.6:
+                    ver = cur[1] + rng.randint(0, 1)             # an overwrite that improves the entity (fresh replica)
+                    v = cur[0] + (rng.randint(1, 60) if d == "d" else -rng.randint(1, 60))
+                else:
+                    ver = cur[1] - 1                             # a stale replica: older and no better
+                    v = cur[0] - (rng.randint(0, 40) if d == "d" else -rng.randint(0, 40))
+                v = max(MINI, min(MAXI, v))
+                if cur is None or ver >= cur[1]:
+                    truth[(t, k)] = (v, ver)
+                items.append("%d.%s.%d.%d" % (t, k, v, ver))
+        rng.shuffle(items)
+        resps.append(items)
+    return "tnp %d %s %s %s %s" % (n, d, agg, rng.choice("pr"), "/".join(",".join(r) if r else "-" for r in resps))
 
 
 # ----------------------------------------------------------------------------------------------------------
@@ -430,6 +593,10 @@ def rand_scenario(rng):
     top = "0"
     if rng.random() < 0.4:
         top = "%d:%s" % (rng.choice([1, 2, 3, 10]), rng.choice("ad"))
+    if rng.random() < 0.15:
+        # a small query limit: the final plan returns `limit` groups, but every node must still send ALL its groups
+        # (the limit pushed to the nodes of an aggregation is unbounded); nodes meet the groups in different orders
+        top += "@%d" % rng.choice([1, 1, 2, 2, 3, 5])
     if rng.random() < 0.25:   # ties for top-N and for MIN/MAX
         for r in rows:
             r[2] = rng.choice([0, 1, 1, 2, -1])
@@ -461,7 +628,9 @@ class C10(vlib.Spec):
         "replica_dedup_once", "replica_dedup_any_order", "replica_copies",
         "reduce_of_cover", "distributed_partial", "distributed_partial_eq_local", "distributed_scalar_replicas",
         "distributed_scalar_counterexample", "distributed_multishard_counterexample", "distributedStatement_false",
-        "groupkey_legacy_counterexample", "groupkey_exact_injective"]] + [
+        "groupkey_legacy_counterexample", "groupkey_exact_injective",
+        "tnInv_step", "topn_put_spec", "tnp_nofix_counterexample", "tnp_nonmonotone_counterexample",
+        "tnp_flush_order_counterexample"]] + [
         "Banyan.Tie.C10." + t for t in ["max_sentinel_tie", "min_sentinel_tie", "mean_clamp_tie", "map_ctor_tie",
                                         "reduce_ctor_tie", "scalar_shard_tie"]]
     go_driver = "c10"
@@ -472,13 +641,14 @@ class C10(vlib.Spec):
         "correspondence check: Go driver hooks/banyand/internal/verifdrv/c10 vs lean_exe drv_c10 (exact lines; keys ignored under top-N)",
         "fact extractor tools/extract.d/C10.py (sentinels, MEAN clamp, accumulator constructors, scalar shard id)",
         "pbgen-regenerated protobuf Go code (measurev1/modelv1 messages, proto.Marshal round trips in the driver)",
-        "Go container/heap and sort.Sort (TopQueue is modelled as a priority queue over them)",
+        "Go container/heap, sort.Sort and flow.DedupPriorityQueue (TopQueue and the TopN post-processor queues are modelled as priority queues over them)",
         "xxhash collision-freedom on the group keys of one query; fake storage (model.MeasureQueryResult) and fake broadcaster in the driver",
     ]
     assumptions = [
         "integer fields only in the model; float accumulators are checked by the oracle on one partition (bit patterns), composition of floats is not claimed",
         "top-N number >= 1 (0 makes TopQueue.Insert panic: theorem top_zero_panics; not generated)",
-        "limit/offset larger than the number of groups (node-side limit truncation is outside C10)",
+        "offset 0; a query limit only on row-path scenarios (limitPlan on the final plan; the limit pushed to the nodes of an aggregation is unbounded)",
+        "TopN post-processor: theorem per timestamp for monotone arrivals (F42 otherwise); Flush with aggregation is order dependent once more than topN entities compete (F43); int64 values only",
         "storage scan, criteria/index filtering, time range and version de-dup are outside C10 (fake MeasureExecutionContext)",
         "row path group-by on exactly the entity (sort iterator): ties to the model on a series-ordered fake scan; not covered by distributed_partial",
     ]
@@ -529,6 +699,8 @@ class C10(vlib.Spec):
             else:
                 vs = [rand_val(rng) for _ in range(ln)]
             out.append("top %d %s %s" % (nn, rng.choice("ad"), ",".join(map(str, vs)) or "-"))
+        for _ in range(n // 6):
+            out.append(rand_tnp(rng))
         m = max(0, n - len(out))
         for _ in range(m // 2):
             s = rand_scenario(rng)
@@ -607,6 +779,8 @@ class C10(vlib.Spec):
             return None
         if f[0] in ("row", "vec"):
             return scenario_oracle(line, g)
+        if f[0] == "tnp":
+            return tnp_oracle(line, g)
         return ("violation", "unknown case kind")
 
     def compare(self, line, g, l):
@@ -615,7 +789,21 @@ class C10(vlib.Spec):
             return True
         if g.startswith("PANIC"):
             return l == "PANIC"
-        if f[0] in ("row", "vec") and f[3] != "0" and not g.startswith("ERR"):
+        if f[0] == "tnp" and g[:2] in ("T=", "A=") and l[:2] == g[:2]:
+            n, asc, agg, items, per_ts = tnp_reference(line)
+            ties = any(st["boundary_tie"] for st in per_ts.values())
+            if g[:2] == "T=":
+                # which of several equal values the heap keeps / pops first is not modelled: value sequences only
+                def vals(s):
+                    return [(p.split(":", 1)[0], [kv.rsplit("=", 1)[1] for kv in p.split(":", 1)[1].split(",")]) for p in s[2:].split(";")]
+                return vals(g) == vals(l)
+            kept = set(k for st in per_ts.values() for k, _ in st["kept"])
+            if ties or len(kept) > n or not all(st["exact"] for st in per_ts.values()):
+                return True      # Flush visits two Go maps in unspecified order: deterministic only when nothing is evicted
+            def pairs(s):
+                return sorted(s[2:].split(",")), [kv.rsplit("=", 1)[1] for kv in s[2:].split(",")]
+            return pairs(g) == pairs(l)
+        if f[0] in ("row", "vec") and f[3].split("@")[0] != "0" and not g.startswith("ERR"):
             # which of several equal values survives in the heap / how sort.Sort orders ties is not modelled
             def strip(s):
                 p = dict(x.split("=", 1) for x in s.split(" "))
@@ -646,9 +834,11 @@ class C10(vlib.Spec):
         f = line.split()
         if f[0] in ("row", "vec"):
             ntags = f[2].count("1")
-            return "%s:groupby%d%s" % (f[0], ntags, ":top" if f[3] != "0" else "")
+            return "%s:groupby%d%s%s" % (f[0], ntags, ":top" if f[3].split("@")[0] != "0" else "", ":limit" if "@" in f[3] and f[0] == "row" else "")
         if f[0] in ("fn", "fns", "fnz", "ff"):
             return "%s:%s" % (f[0], f[1])
+        if f[0] == "tnp":
+            return "tnp:%s:%s" % ("agg" if f[3] != "none" else "per-timestamp", "dquery" if f[4] == "r" else "direct")
         return f[0]
 
     def shrink(self, line, still_fails):
